@@ -136,8 +136,68 @@ var defects = []defect{
 	{"ctime-past-outside-skew", "reject", func(c *cas) { c.m.Auth.CTime = c.now.Add(-skew - time.Second) }},
 	{"caddr-mismatch", "reject", func(c *cas) { c.m.Tkt.CAddr = []kmsg.Addr{addrOther} }},
 	{"replay", "reject", func(c *cas) { c.replay = true }},
+	// RFC 4120 3.2.3: a ticket whose INVALID flag is set is not acceptable (KRB_AP_ERR_TKT_NYV), whatever its other flags say and
+	// whether or not it carries the OPTIONAL starttime (5.3: without starttime the authtime stands in; it stays in the past here)
+	{"tkt-invalid-flag", "reject", func(c *cas) { c.m.Tkt.Flags = otherFlags(c.rnd, true) | flagInvalid }},
+	{"tkt-invalid-flag-no-starttime", "reject", func(c *cas) {
+		c.m.Tkt.Flags = otherFlags(c.rnd, true) | flagInvalid
+		c.m.Tkt.StartTime = nil
+	}},
+	// RFC 4120 7.5.1: the authenticator of an AP-REQ sent to an application server is sealed under key usage 11, the ticket under
+	// key usage 2; a ciphertext made for another key usage does not authenticate (RFC 3961: keys are derived per usage). Key usage 7
+	// is the one the protocol uses for the authenticator of the AP-REQ inside a TGS-REQ; the others are drawn from the table of 7.5.1.
+	{"auth-key-usage-tgs-req", "reject", func(c *cas) { c.m.AuthUsage = 7 }},
+	{"auth-key-usage-other", "reject", func(c *cas) { c.m.AuthUsage = vh.Pick(c.rnd, otherUsages(11)...) }},
+	{"tkt-key-usage-other", "reject", func(c *cas) { c.m.TktUsage = vh.Pick(c.rnd, otherUsages(2)...) }},
 	{"n-caddr-contains-client", "neutral", func(c *cas) { c.m.Tkt.CAddr = []kmsg.Addr{addrOther, remote} }},
 	{"n-kvno-absent", "neutral", func(c *cas) { c.m.Kvno = nil }},
+	// starttime is OPTIONAL (RFC 4120 5.3); flags other than INVALID have no bearing on acceptance by an application server
+	{"n-starttime-absent", "neutral", func(c *cas) {
+		c.m.Tkt.Flags = otherFlags(c.rnd, false)
+		c.m.Tkt.StartTime = nil
+	}},
+}
+
+// flagInvalid is the INVALID ticket flag (bit 7, bit 0 being the most significant bit of the 32-bit flag word).
+const flagInvalid = uint32(1) << (31 - accept.InvalidFlagBit)
+
+// otherFlags draws a set of the ticket flags of RFC 4120 5.3 / RFC 6806 other than INVALID: forwardable(1) forwarded(2)
+// proxiable(3) proxy(4) may-postdate(5) postdated(6) renewable(8) initial(9) pre-authent(10) hw-authent(11)
+// transited-policy-checked(12) ok-as-delegate(13). postdated is left out on request (a postdated ticket has a starttime).
+func otherFlags(rnd *vh.Rand, postdated bool) uint32 {
+	var f uint32
+	for _, bit := range []uint{1, 2, 3, 4, 5, 6, 8, 9, 10, 11, 12, 13} {
+		if bit == 6 && !postdated {
+			continue
+		}
+		if rnd.Bool() {
+			f |= 1 << (31 - bit)
+		}
+	}
+	return f
+}
+
+// otherUsages lists key usage numbers other than the right one: the assigned numbers 1..25 of RFC 4120 7.5.1 and numbers that
+// agree with the right one in their low 8 / 16 bits only. Usage numbers that RC4-HMAC (RFC 4757) maps onto the same message
+// type as the right one are left out.
+func otherUsages(right uint32) []uint32 {
+	var out []uint32
+	for u := uint32(1); u <= 25; u++ {
+		if u != right && kcrypto.RC4Usage(u) != kcrypto.RC4Usage(right) {
+			out = append(out, u)
+		}
+	}
+	return append(out, right+256, right+65536, right|1<<31, 1024)
+}
+
+func nDefects(kind string) int {
+	n := 0
+	for _, d := range defects {
+		if d.kind == kind {
+			n++
+		}
+	}
+	return n
 }
 
 func defectIndex(name string) int {
@@ -1790,9 +1850,10 @@ func TestProp(t *testing.T) {
 		return
 	}
 	r.SetRule("Authorization header values built by the reference (ref/kmsg SPNEGO/GSS framing + ref/accept minting), never by gokrb5, presented to spnego.SPNEGOKRB5Authenticate through httptest under a virtual clock: " +
-		"(hdr) absent/empty/foreign-scheme/non-base64/odd spellings around a valid token; (cat) {valid, 15 rejecting defects, 2 neutral variants} x 33 framings (NegTokenInit/NegTokenResp/raw KRB5, empty/foreign/omitted mech lists, missing mechToken, AP-REP and KRB-ERROR mechanism tokens, wrong TOK_IDs) x six etypes; " +
+		"(hdr) absent/empty/foreign-scheme/non-base64/odd spellings around a valid token; (cat) {valid, " + fmt.Sprintf("%d rejecting defects, %d neutral variants} x %d framings", nDefects("reject"), nDefects("neutral"), len(framings)) + " (defects: wrong keys, bit flips, expired / not yet valid / INVALID-flagged tickets with and without the optional starttime, name and realm mismatches, skew, addresses, replay, authenticator or ticket sealed under another key usage number; framings: NegTokenInit/NegTokenResp/raw KRB5, empty/foreign/omitted mech lists, missing mechToken, AP-REP and KRB-ERROR mechanism tokens, wrong TOK_IDs) x six etypes; " +
 		"(mut) every prefix and one (thorough: 12, incl. all single-bit flips) substituted value per byte of valid canonical tokens, each against a freshly minted authenticator; (rnd) uniform and structure-aware random tokens, multi-byte edits and splices; " +
 		"(seq) seeded request sequences of length <= 4 with/without cookies under session manager none/working/New-fails/Get-fails; " +
+		"(sweep) histories in which virtual time passes and the replay cache is swept (Cache.ClearOldEntries(MaxClockSkew), what its janitor does) between presentations and re-presentations of tokens whose authenticator time is ahead of / behind the service clock, MaxClockSkew {default, 2 min, 30 s}; " +
 		"(resp) every NegTokenResp shape negState {absent,0,1,2,3,out of range} x supportedMech {absent,KRB5,MS-KRB5,NTLM,SPNEGO} x responseToken {absent,empty,valid/defective/bare AP-REQ,AP-REP,KRB-ERROR,random} x mechListMIC {absent,present}; " +
 		"(echo) every WWW-Authenticate value the wrapper itself answered (200 and 401) sent back as Authorization; " +
 		"(peeraddr) address-restricted tickets (one/two addresses, IPv4/IPv6/both, with NetBIOS entry) over connections from the listed address, a near-miss of the same family, the other family, an IPv4-mapped IPv6 peer and RemoteAddr forms that give no address (bare IP, '@', empty, host name). " +
@@ -1873,6 +1934,7 @@ func TestProp(t *testing.T) {
 	e.peerAddressCases()
 	e.requireResp()
 	e.sessionCases()
+	e.sweepCases() // last: its sweeps empty the process-wide replay cache
 	r.Require("identity_checked", 500)
 	for _, sp := range []string{"upper", "lower", "mixed"} {
 		r.Require("identity_checked_realm_spelling_"+sp, 100)
